@@ -60,6 +60,19 @@ CLAIMED = {
         "expression index in text) that are recorded as known findings. Partial: agreement with LLVMSpec.gepType is established by correspondence + oracle, not yet by theorem.",
    note="Lean kernel + propext/Quot.sound; model LlirModel/Gep.lean hand-written; LLVMSpec.gepType trusted transcription; identified-struct environment fixed by the harness.",
    technique="Lean 4 proof over a hand-written model + differential correspondence with the Go implementation", design="§4 C07"),
+ "C08": dict(
+   text="Lean proof over functions of any shape (flat slot lists, any length) that whenever AssignIDs succeeds the result IS LLVM's numbering, that fresh functions are always "
+        "numbered, that every numbering LLVM accepts is accepted unchanged, that renumbering is idempotent, that void/named slots consume no number, and (after the fix commit) "
+        "that printing a parsed module never fails for any textual interleaving of named/unnamed global entities. Tied by the same shapes built through the constructors and "
+        "through rendered text, plus an LLVM-numbering oracle.",
+   note="Lean kernel + propext/Quot.sound; model LlirModel/Numbering.lean hand-written; LLVMSpec.numbering trusted transcription; void-ness of instructions taken from C06.",
+   technique="Lean 4 proof over a hand-written model + differential correspondence with the Go implementation", design="§4 C08"),
+ "C17": dict(
+   text="Lean proof for ID lists of any length: distinct explicit IDs are accepted and kept, duplicates are an error, handed-out IDs are the smallest unused ones in order "
+        "(nextID spec, with the loop's termination proved), the result has no duplicates, and assignment is idempotent. Reference identity in parsed modules (forward refs, "
+        "cycles, distinct, inline, named-metadata merging, ascending order) is checked by an in-process pointer-identity oracle; its theorem lives in the resolver model (C04).",
+   note="Lean kernel + propext/Quot.sound; model LlirModel/MetaIDs.lean hand-written; identity part tied by oracle, not by theorem here.",
+   technique="Lean 4 proof over a hand-written model + differential correspondence with the Go implementation", design="§4 C17"),
 }
 
 def main():
